@@ -13,7 +13,9 @@ RULE = (
     "case = font (1-14 glyphs; outlines as C01 plus repeated glyph parts, look-alike glyphs assembled from a small pool of contour shapes (identical glyphs next to partially shared ones), collinear runs, coincident points, widths equal to / different "
     "from the most common width, zero widths; kerning + anchors so GPOS/GDEF exist) compiled under all 18 combinations optimizeCFF{0,1,2} x "
     "subroutinizer{None,cffsubr,compreffor} x cffVersion{1,2}; oracle = differential against the reference combination (0,None,1): drawings "
-    "equal under N1, exactly equal (N0) among optimizeCFF=0 combinations, hmtx equal, raw GPOS/GSUB/GDEF bytes equal; the one unsupported "
+    "of EVERY glyph of the compiled font (incl. the .notdef ufo2ft synthesises when the UFO has none) equal under N1 and starting at the same point, exactly equal (N0) among "
+    "optimizeCFF=0 combinations, hmtx equal, CFF charstring width == hmtx, raw GPOS/GSUB/GDEF bytes equal; the one combination that really runs compreffor is compiled in a worker "
+    "process under a 20 s wall-clock bound (beyond it: counted as inconclusive); the one unsupported "
     "combination must raise NotImplementedError. Non-trivial = some combination actually produced subroutines (Subrs index non-empty) and "
     ">= 2 distinct advance widths occur. Distinct = distinct case hash."
 )
